@@ -157,3 +157,9 @@ Qed.
 
 Lemma be_at_head n v post : be_at (be_enc n v ++ post) 0 n = Some (v mod 256 ^ N.of_nat n).
 Proof. exact (be_at_here [] n v post). Qed.
+
+Lemma to_nat_len {A} (l : list A) : N.to_nat (len l) = length l.
+Proof. unfold len. apply Nat2N.id. Qed.
+
+Lemma Forall2_len {A B} (R : A -> B -> Prop) l1 l2 : Forall2 R l1 l2 -> length l1 = length l2.
+Proof. induction 1; cbn; congruence. Qed.
